@@ -51,8 +51,10 @@ CHECKS = {
                      "compared bit for bit at every common record and at the end.",
                 technique="property-based metamorphic testing of whole executions, bitwise oracle", ref="DESIGN.md §3 C12"),
     "C13": dict(text="Round trip parse -> save -> parse over generated assignments of all registered options from command line and/or parent config file "
-                     "(arbitrary representable floats, vectors, aliases, alpha0 vs synchrotron frequency): every getter compared bitwise.",
-                technique="property-based round-trip testing (in-process through the shim)", ref="DESIGN.md §3 C13"),
+                     "(arbitrary representable floats, vectors, aliases, alpha0 vs synchrotron frequency): every getter compared bitwise, first and second "
+                     "generation; coverage-guided libFuzzer target on configuration text (bytes + command-line arguments) with the same round-trip oracle "
+                     "inside the target; end-to-end rerun of the real program from its saved .cfg (bit-identical results).",
+                technique="property-based round-trip testing (Hypothesis, in-process through the shim) and coverage-guided fuzzing (libFuzzer) of configuration text with a round-trip oracle", ref="DESIGN.md §3 C13"),
     "C14": dict(category="fault_enumeration",
                 text="SIGINT raised by a guarded hook at generated interrupt points (statement boundaries of set-up, loop, output block, HDF5 appends, final block), "
                      "1-3 signals; oracles against an uninterrupted run with the same cadence and an every-step reference run, all bitwise; thorough tier "
@@ -92,7 +94,7 @@ def main():
     hook_commits = [c.split()[0] for c in commits if "INOVESA_VERIF" in c or c.split(" ", 1)[1].startswith("verif-hook")]
     m = dict(
         version=1,
-        setup_cmd="python3 build.py h5x shim rel san fuzz shimsan",
+        setup_cmd="python3 build.py h5x shim rel san fuzz shimsan fuzzcfg",
         hooks=dict(guard="INOVESA_VERIF",
                    enable="build.py compiles every source of /repo's working tree with -DINOVESA_VERIF=1 (flavours rel, san, shim, fuzz)",
                    baseline_off_cmd="cmake --build /repo/_build && ctest --test-dir /repo/_build -j8 --timeout 900",
